@@ -128,10 +128,10 @@ func init() {
 // the input. We can pull the prerelease out by looking for '-' or alphas.
 func (g *gemExtension) init(input string) error {
 	// Prerelease starts at the earlier of '-' or an alphabetic.
-	input = strings.ToLower(input)
+	// Letters keep their case: Gem::Version compares them as they are.
 	preStart := -1
 	for i, c := range input {
-		if c == '-' || 'a' <= c && c <= 'z' {
+		if c == '-' || 'a' <= c && c <= 'z' || 'A' <= c && c <= 'Z' {
 			preStart = i
 			break
 		}
